@@ -51,8 +51,10 @@ class JaqalLexer(Lexer):
 
     # Identifiers and numbers
     IDENTIFIER = r"[a-zA-Z_](\.?[a-zA-Z0-9_])*"
-    DOTIDENTIFIER = r"\.([a-zA-Z_](\.?[a-zA-Z0-9_])*)?"
+    # NUMBER is tried before DOTIDENTIFIER: `.5` is a number (like `-.5`),
+    # not a lone dot followed by an integer.
     NUMBER = r"[-+]?[0-9]*\.[0-9]+([eE][-+]?[0-9]+)?"
+    DOTIDENTIFIER = r"\.([a-zA-Z_](\.?[a-zA-Z0-9_])*)?"
     INT = r"[-+]?[0-9]+"
     BININT = r"'[0-1]+'"
 
